@@ -41,6 +41,11 @@ def run_program(chk, E, prog, gflags, name, with_test, with_run):
         b = E.run_garble(gflags, ["test", "./..."], res["root"])
         if (a.returncode, test_verdicts(a.stdout)) != (b.returncode, test_verdicts(b.stdout)):
             out.append({"why": "garble test verdicts differ from go test", "detail": {"go": [a.returncode, a.stdout[-800:]], "garble": [b.returncode, b.stdout[-800:], b.stderr[-1500:]]}, **meta})
+        # flags after the package list, as go test accepts them
+        a = E.run_go(["test", "-trimpath", "-vet=off", "./...", "-run", "Test", "-count=1", "-v"], res["root"])
+        b = E.run_garble(gflags, ["test", "./...", "-run", "Test", "-count=1", "-v"], res["root"])
+        if (a.returncode, test_verdicts(a.stdout)) != (b.returncode, test_verdicts(b.stdout)):
+            out.append({"why": "garble test with flags after the packages differs from go test", "detail": {"go": [a.returncode, a.stdout[-800:]], "garble": [b.returncode, b.stdout[-800:], b.stderr[-1500:]]}, **meta})
     return out, res
 
 
